@@ -31,6 +31,9 @@ type JobOpts struct {
 	HoldPoints []string `json:"hold_points"`
 	Sub2       bool     `json:"sub2"`
 	RoundTrip  bool     `json:"roundtrip"`
+	Concurrent bool     `json:"concurrent"`
+	// Race: run the workers with the race-detector build of the harness
+	Race bool `json:"race"`
 }
 
 type Job struct {
@@ -79,6 +82,7 @@ func (o JobOpts) driveOpts() drive.Options {
 	d.Perturb = o.Perturb
 	d.Sub2 = o.Sub2
 	d.RoundTrip = o.RoundTrip
+	d.Concurrent = o.Concurrent
 	return d
 }
 
@@ -171,6 +175,19 @@ func ReplayAllRaw(dir string, job *Job, nworkers int) (map[int]RunLog, error) {
 	if err != nil {
 		return nil, err
 	}
+	raceLog := ""
+	if job.Opts.Race {
+		// the race-detector build of this harness (built by ./check next to the normal one)
+		if rb := os.Getenv("VH_RACE_BIN"); rb != "" {
+			self = rb
+		} else {
+			self = self + "-race"
+		}
+		if _, err := os.Stat(self); err != nil {
+			return nil, fmt.Errorf("race build of the harness not found: %v", err)
+		}
+		raceLog = filepath.Join(dir, "race")
+	}
 	jobPath := filepath.Join(dir, "job.json")
 	b, _ := json.Marshal(job)
 	if err := os.WriteFile(jobPath, b, 0o644); err != nil {
@@ -198,6 +215,9 @@ func ReplayAllRaw(dir string, job *Job, nworkers int) (map[int]RunLog, error) {
 				var stderr bytes.Buffer
 				cmd.Stderr = &stderr
 				cmd.Env = append(os.Environ(), "GOTRACEBACK=all")
+				if raceLog != "" {
+					cmd.Env = append(cmd.Env, "GORACE=halt_on_error=0 exitcode=0 log_path="+raceLog)
+				}
 				err := cmd.Run()
 				code := 0
 				if err != nil {
